@@ -9,6 +9,7 @@ CONSTANTS
   ValueEq = TRUE
   SoloTries = 2
   SplitPC = FALSE
+  CommitRetry = TRUE
 INIT Init
 NEXT Next
 VIEW view
